@@ -317,21 +317,11 @@ theorem mRun_quoted (R : List Raw) (hR : QOK R) (c : Char) (hc : Term c) (X : Li
   cases mRun {} X <;> simp
 
 /-! ### names -/
-/-- the strings `parse_string` compares tokens with -/
-def isPunTokChar (c : Char) : Bool := c = '(' || c = ')' || c = ',' || c = ':' || c = ';'
+/-- names the writer / tokeniser / parser triple handles: exactly the decidable predicate `roundTrips`
+of the model (ANY characters, not only printable ASCII) -/
+def GoodName (n : List Char) : Prop := roundTrips n = true
 
-/-- a label that is not one of the punctuation strings -/
-def notPunLab (s : List Char) : Bool :=
-  match s with
-  | [c] => !isPunTokChar c && c != '['
-  | _ => true
-
-/-- names the writer / tokeniser / parser triple handles: non-empty printable ASCII, not beginning
-with a single quote (known finding C09-newick-leading-quote-name), and not consisting of a single
-punctuation character `( ) , : ; [` (a quoted label that equals a punctuation string is taken for
-the punctuation by `parse_string`; known finding C09-newick-punctuation-name) -/
-def GoodName (n : List Char) : Prop :=
-  n ≠ [] ∧ n.head? ≠ some '\'' ∧ (∀ x ∈ n, Printable x) ∧ notPunLab n = true
+instance : DecidablePred GoodName := fun n => by unfold GoodName; infer_instance
 
 theorem printable_ne_nl {x : Char} (h : Printable x) : x ≠ '\n' := by
   rintro rfl; exact absurd h.1 (by decide)
@@ -347,9 +337,21 @@ theorem printable_not_space {x : Char} (h : Printable x) (hs : x ≠ ' ') : pySp
   have h2 := printable_ne_nl h
   have h3 := printable_ne_cr h
   have h32 := h.1
-  simp only [pySpace, hs, h1, h2, h3, decide_false, Bool.false_or, Bool.or_eq_false_iff,
-    decide_eq_false_iff_not, Bool.and_eq_false_iff]
-  refine ⟨⟨by omega, by omega⟩, Or.inr (by omega)⟩
+  have h126 := h.2
+  have e1 : decide (x.toNat = 11) = false := decide_eq_false (by omega)
+  have e2 : decide (x.toNat = 12) = false := decide_eq_false (by omega)
+  have e3 : decide (x.toNat ≤ 31) = false := decide_eq_false (by omega)
+  have e4 : decide (x.toNat = 0x85) = false := decide_eq_false (by omega)
+  have e5 : decide (x.toNat = 0xA0) = false := decide_eq_false (by omega)
+  have e6 : decide (x.toNat = 0x1680) = false := decide_eq_false (by omega)
+  have e7 : decide (0x2000 ≤ x.toNat) = false := decide_eq_false (by omega)
+  have e8 : decide (x.toNat = 0x2028) = false := decide_eq_false (by omega)
+  have e9 : decide (x.toNat = 0x2029) = false := decide_eq_false (by omega)
+  have e10 : decide (x.toNat = 0x202F) = false := decide_eq_false (by omega)
+  have e11 : decide (x.toNat = 0x205F) = false := decide_eq_false (by omega)
+  have e12 : decide (x.toNat = 0x3000) = false := decide_eq_false (by omega)
+  simp only [pySpace, hs, h1, h2, h3, e1, e2, e3, e4, e5, e6, e7, e8, e9, e10, e11, e12, decide_false,
+    Bool.false_or, Bool.and_false, Bool.false_and, Bool.or_false]
 
 theorem plain_of {x : Char} (h : Printable x) (hq : needsQuote x = false) (hs : x ≠ ' ') : PlainCh x := by
   have h1 := printable_ne_tab h
@@ -419,10 +421,278 @@ theorem startsEndsQuote_false {n : List Char} (h : n.head? ≠ some '\'') : star
     have : c ≠ '\'' := by simpa using h
     simp [startsEndsQuote, this]
 
+/-! ### unquoted labels with arbitrary characters (tabs inside, odd white space) -/
+/-- a character of an unquoted label as the writer emits it: anything but a newline, a quote
+character or newick punctuation (blanks — i.e. tabs — allowed) -/
+def UCh (x : Char) : Prop := x ≠ '\n' ∧ x ≠ '\'' ∧ x ≠ '"' ∧ isPunct x = false
+
+def Soft : Raw → Prop
+  | .ws s => s ≠ [] ∧ ∀ y ∈ s, isBlank y = true
+  | .txt s => s ≠ []
+  | _ => False
+
+/-- lexer states reachable inside an unquoted label -/
+def LexU (σ : LexSt) : Prop :=
+  match σ.pend with
+  | .none => True
+  | .ws run => σ.txt = [] ∧ run ≠ [] ∧ ∀ y ∈ run, isBlank y = true
+  | _ => False
+
+theorem flushTxt_soft (txt : List Char) :
+    (∀ r ∈ flushTxt txt, Soft r) ∧ (flushTxt txt).flatMap Raw.str = txt.reverse := by
+  by_cases h : txt = []
+  · subst h; simp [flushTxt]
+  · simp [flushTxt, h, Soft, Raw.str]
+
+theorem flushPend_soft (σ : LexSt) (h : LexU σ) :
+    (∀ r ∈ flushPend σ, Soft r) ∧ (flushPend σ).flatMap Raw.str = pendStr σ := by
+  cases σ with
+  | mk txt pend =>
+    cases pend with
+    | none => simpa [flushPend, pendStr] using flushTxt_soft txt
+    | ws run =>
+      obtain ⟨h1, h2, h3⟩ := h
+      simp [flushPend, pendStr, Soft, Raw.str, h2]
+      intro y hy; exact h3 y hy
+    | sq => exact absurd h (by simp [LexU])
+    | dq => exact absurd h (by simp [LexU])
+
+theorem lexFresh_U (txt : List Char) (x : Char) (hx : UCh x) :
+    LexU (lexFresh txt x).1 ∧ (∀ r ∈ (lexFresh txt x).2, Soft r) ∧
+      (lexFresh txt x).2.flatMap Raw.str ++ pendStr (lexFresh txt x).1 = txt.reverse ++ [x] := by
+  obtain ⟨hn, hq, hd, hp⟩ := hx
+  obtain ⟨hf1, hf2⟩ := flushTxt_soft txt
+  unfold lexFresh
+  by_cases h1 : isBlank x = true
+  · simp only [h1, if_true]
+    refine ⟨⟨rfl, by simp, by simpa using h1⟩, hf1, by simp [hf2, pendStr]⟩
+  · simp only [h1, hn, hq, hd, hp, if_false, Bool.false_eq_true]
+    exact ⟨trivial, by simp, by simp [pendStr]⟩
+
+theorem lexStep_U (σ : LexSt) (h : LexU σ) (x : Char) (hx : UCh x) :
+    LexU (lexStep σ x).1 ∧ (∀ r ∈ (lexStep σ x).2, Soft r) ∧
+      (lexStep σ x).2.flatMap Raw.str ++ pendStr (lexStep σ x).1 = pendStr σ ++ [x] := by
+  cases σ with
+  | mk txt pend =>
+    cases pend with
+    | none => simpa [lexStep, pendStr] using lexFresh_U txt x hx
+    | sq => exact absurd h (by simp [LexU])
+    | dq => exact absurd h (by simp [LexU])
+    | ws run =>
+      obtain ⟨h1, h2, h3⟩ := h
+      simp only [lexStep]
+      by_cases hb : isBlank x = true
+      · simp only [hb, if_true]
+        refine ⟨⟨rfl, by simp, ?_⟩, by simp, by simp [pendStr]⟩
+        intro y hy
+        rcases List.mem_cons.1 hy with rfl | hy
+        · exact hb
+        · exact h3 y hy
+      · simp only [hb, if_false, Bool.false_eq_true, reduceIte]
+        obtain ⟨a, b, c⟩ := lexFresh_U [] x hx
+        refine ⟨a, ?_, ?_⟩
+        · intro r hr
+          rcases List.mem_cons.1 hr with rfl | hr
+          · exact ⟨by simpa using h2, fun y hy => h3 y (List.mem_reverse.1 hy)⟩
+          · exact b r hr
+        · rw [List.flatMap_cons, List.append_assoc, c]
+          simp [Raw.str, pendStr]
+
+theorem lex_closeU (σ : LexSt) (h : LexU σ) (c : Char) (rest : List Char) (hc : Term c) :
+    lexRun σ (c :: rest) = flushPend σ ++ Raw.sp c :: lexRun {} rest := by
+  have hb : isBlank c = false := by rcases hc with rfl | rfl | rfl | rfl <;> decide
+  cases σ with
+  | mk txt pend =>
+    cases pend with
+    | none =>
+      simp only [lexRun_cons, lexStep, lexFresh_term txt c hc, flushPend, List.append_assoc]
+      rfl
+    | ws run =>
+      simp only [lexRun_cons, lexStep, hb, lexFresh_term [] c hc, flushPend, Bool.false_eq_true, if_false]
+      simp [flushTxt]
+    | sq => exact absurd h (by simp [LexU])
+    | dq => exact absurd h (by simp [LexU])
+
+/-- the characters of an unquoted label up to its terminator: only blank / text pieces -/
+theorem lex_unquoted : ∀ (m : List Char) (σ : LexSt), LexU σ → (∀ x ∈ m, UCh x) →
+    ∃ R, (∀ r ∈ R, Soft r) ∧ R.flatMap Raw.str = pendStr σ ++ m ∧
+      ∀ (c : Char) (rest : List Char), Term c →
+        lexRun σ (m ++ c :: rest) = R ++ Raw.sp c :: lexRun {} rest
+  | [], σ, h, _ => by
+    obtain ⟨h1, h2⟩ := flushPend_soft σ h
+    exact ⟨flushPend σ, h1, by simpa using h2, fun c rest hc => by simpa using lex_closeU σ h c rest hc⟩
+  | x :: m, σ, h, hm => by
+    obtain ⟨hw, hs, he⟩ := lexStep_U σ h x (hm x (by simp))
+    obtain ⟨R', hs', he', hl'⟩ := lex_unquoted m (lexStep σ x).1 hw (fun y hy => hm y (by simp [hy]))
+    refine ⟨(lexStep σ x).2 ++ R', ?_, ?_, ?_⟩
+    · intro r hr
+      rcases List.mem_append.1 hr with hr | hr
+      · exact hs r hr
+      · exact hs' r hr
+    · rw [List.flatMap_append, he', ← List.append_assoc, he]; simp
+    · intro c rest hc
+      simp only [List.cons_append]
+      rw [lexRun_cons, hl' c rest hc]
+      simp
+
+/-! machine -/
+theorem feedText : ∀ (R : List Raw) (acc : List Char), (∀ r ∈ R, Soft r) →
+    feed ⟨some acc, none, false, []⟩ R = some (⟨some (acc ++ R.flatMap Raw.str), none, false, []⟩, [])
+  | [], acc, _ => by simp [feed]
+  | r :: R, acc, h => by
+    have hr := h r (by simp)
+    have hR : ∀ r ∈ R, Soft r := fun x hx => h x (by simp [hx])
+    have hstep : mStep ⟨some acc, none, false, []⟩ r = some (⟨some (acc ++ r.str), none, false, []⟩, []) := by
+      cases r <;> simp [Soft] at hr <;> simp [mStep, mBody]
+    simp only [feed, hstep, feedText R _ hR]
+    simp
+
+theorem dropWhile_nil_all {α} (p : α → Bool) : ∀ (l : List α), l.dropWhile p = [] → ∀ y ∈ l, p y = true
+  | [], _, y, hy => by simp at hy
+  | a :: l, h, y, hy => by
+    by_cases ha : p a = true
+    · simp only [List.dropWhile, ha] at h
+      rcases List.mem_cons.1 hy with rfl | hy
+      · exact ha
+      · exact dropWhile_nil_all p l h y hy
+    · simp [List.dropWhile, ha] at h
+
+theorem strip_ne_nil_of_head (x : Char) (s : List Char) (hx : pySpace x = false) : strip (x :: s) ≠ [] := by
+  unfold strip
+  simp only [List.dropWhile, hx]
+  intro h
+  have h' : ((x :: s).reverse.dropWhile pySpace) = [] := by simpa using h
+  have := dropWhile_nil_all pySpace _ h' x (by simp)
+  rw [hx] at this; cases this
+
+theorem feedStart (R : List Raw) (hR : ∀ r ∈ R, Soft r) (x : Char) (m : List Char)
+    (hflat : R.flatMap Raw.str = x :: m) (hsp : pySpace x = false) (hb : isBlank x = false) :
+    feed {} R = some (⟨some (x :: m), none, false, []⟩, []) := by
+  cases R with
+  | nil => simp at hflat
+  | cons r R =>
+    have hr := hR r (by simp)
+    have hR' : ∀ r ∈ R, Soft r := fun y hy => hR y (by simp [hy])
+    cases r with
+    | ws s =>
+      obtain ⟨hne, hall⟩ := hr
+      obtain ⟨y, s', rfl⟩ := List.exists_cons_of_ne_nil hne
+      simp only [List.flatMap_cons, Raw.str, List.cons_append, List.cons.injEq] at hflat
+      have := hall y (by simp)
+      rw [hflat.1, hb] at this; cases this
+    | txt s =>
+      have hne : s ≠ [] := hr
+      obtain ⟨y, s', rfl⟩ := List.exists_cons_of_ne_nil hne
+      simp only [List.flatMap_cons, Raw.str, List.cons_append, List.cons.injEq] at hflat
+      obtain ⟨rfl, hrest⟩ := hflat
+      have hst := strip_ne_nil_of_head y s' hsp
+      have hs1 : mStep {} (Raw.txt (y :: s')) = some (⟨some (y :: s'), none, false, []⟩, []) := by
+        simp [mStep, mBody, Raw.str, hst]
+      simp only [feed, hs1, feedText R _ hR']
+      simp [hrest]
+    | nl => exact absurd hr (by simp [Soft])
+    | sq2 => exact absurd hr (by simp [Soft])
+    | dq2 => exact absurd hr (by simp [Soft])
+    | sp c => exact absurd hr (by simp [Soft])
+
+/-- an unquoted label (possibly with tabs inside) followed by a terminator -/
+theorem mRun_unquoted (R : List Raw) (hR : ∀ r ∈ R, Soft r) (x : Char) (m : List Char)
+    (hflat : R.flatMap Raw.str = x :: m) (hsp : pySpace x = false) (hb : isBlank x = false)
+    (c : Char) (hc : Term c) (X : List Raw) :
+    mRun {} (R ++ Raw.sp c :: X) =
+      (mRun {} X).map (fun ts => STok.lab (unmunge (strip (x :: m))) :: STok.pun c :: ts) := by
+  obtain ⟨hp, h1, h2, _⟩ := term_punct hc
+  have hs2 : mStep ⟨some (x :: m), none, false, []⟩ (Raw.sp c) =
+      some ({}, [STok.lab (unmunge (strip (x :: m))), STok.pun c]) := by
+    simp [mStep, mBody, hp, finishText, h1, h2]
+  rw [mRun_append, feedStart R hR x m hflat hsp hb]
+  simp only [mRun, hs2, List.nil_append]
+  cases mRun {} X <;> simp
+
+
+/-! names -/
+def mungeCh (c : Char) : Char := if c = ' ' then '_' else c
+
+theorem munge_eq_map : ∀ (n : List Char), munge n = n.map mungeCh
+  | [] => rfl
+  | x :: n => by simp [munge, mungeCh, munge_eq_map n]
+
+theorem isBlank_pySpace {x : Char} (h : isBlank x = true) : pySpace x = true := by
+  simp only [isBlank, Bool.or_eq_true, decide_eq_true_eq] at h
+  rcases h with rfl | rfl <;> decide
+
+theorem mungeCh_soft {x : Char} (h : hardSpace x = false) :
+    pySpace (mungeCh x) = false ∧ isBlank (mungeCh x) = false := by
+  unfold mungeCh
+  by_cases hs : x = ' '
+  · subst hs; exact ⟨by decide, by decide⟩
+  · simp only [hs, if_false]
+    have hp : pySpace x = false := by
+      simp only [hardSpace, Bool.and_eq_false_iff, bne_eq_false_iff_eq] at h
+      rcases h with h | h
+      · exact h
+      · exact absurd h hs
+    refine ⟨hp, ?_⟩
+    cases hb : isBlank x with
+    | false => rfl
+    | true => rw [isBlank_pySpace hb] at hp; cases hp
+
+theorem mungeCh_UCh {x : Char} (hq : needsQuote x = false) (hn : x ≠ '\n') : UCh (mungeCh x) := by
+  simp only [needsQuote, Bool.or_eq_false_iff, decide_eq_false_iff_not] at hq
+  obtain ⟨⟨⟨⟨⟨⟨⟨⟨⟨a1, a2⟩, a3⟩, a4⟩, a5⟩, a6⟩, a7⟩, a8⟩, a9⟩, a10⟩ := hq
+  unfold mungeCh
+  by_cases hs : x = ' '
+  · subst hs; exact ⟨by decide, by decide, by decide, by decide⟩
+  · simp only [hs, if_false]
+    exact ⟨hn, a3, a4, by simp [isPunct, a1, a2, a5, a6, a7, a8, a9]⟩
+
+theorem dropWhile_head_false {α} (p : α → Bool) (l : List α) (h : ∀ x, l.head? = some x → p x = false) :
+    l.dropWhile p = l := by
+  cases l with
+  | nil => rfl
+  | cons a l => simp [List.dropWhile, h a rfl]
+
+theorem strip_eq_self (s : List Char) (hh : ∀ x, s.head? = some x → pySpace x = false)
+    (hl : ∀ x, s.getLast? = some x → pySpace x = false) : strip s = s := by
+  unfold strip
+  rw [dropWhile_head_false pySpace s hh, dropWhile_head_false pySpace s.reverse (by simpa using hl), List.reverse_reverse]
+
+/-- `roundTrips` unpacked -/
+theorem roundTrips_iff (n : List Char) : roundTrips n = true ↔
+    n ≠ [] ∧ (∀ x ∈ n, x ≠ '\n') ∧ n.head? ≠ some '\'' ∧ notPunLab n = true ∧
+      (n.any needsQuote = true ∨
+        ((∀ x, n.head? = some x → hardSpace x = false) ∧ (∀ x, n.getLast? = some x → hardSpace x = false))) := by
+  unfold roundTrips
+  simp only [Bool.and_eq_true, Bool.not_eq_true', Bool.or_eq_true, List.isEmpty_eq_false_iff, bne_iff_ne, ne_eq]
+  constructor
+  · rintro ⟨⟨⟨⟨h1, h2⟩, h3⟩, h4⟩, h5⟩
+    refine ⟨h1, ?_, h3, h4, ?_⟩
+    · intro x hx e; subst e
+      simp [List.contains_iff_mem, hx] at h2
+    · rcases h5 with h5 | ⟨h5, h6⟩
+      · exact Or.inl h5
+      · refine Or.inr ⟨?_, ?_⟩
+        · intro x hx; simpa [hx] using h5
+        · intro x hx; simpa [hx] using h6
+  · rintro ⟨h1, h2, h3, h4, h5⟩
+    refine ⟨⟨⟨⟨h1, ?_⟩, h3⟩, h4⟩, ?_⟩
+    · cases hc : n.contains '\n' with
+      | false => rfl
+      | true => exact absurd rfl (h2 _ (by simpa [List.contains_iff_mem] using hc))
+    · rcases h5 with h5 | ⟨h5, h6⟩
+      · exact Or.inl h5
+      · refine Or.inr ⟨?_, ?_⟩
+        · cases hh : n.head? with
+          | none => rfl
+          | some x => simpa using h5 x hh
+        · cases hh : n.getLast? with
+          | none => rfl
+          | some x => simpa using h6 x hh
+
 /-- the escaped name followed by a terminator is read back as the name -/
 theorem run_label (n : List Char) (hn : GoodName n) (c : Char) (hc : Term c) (rest : List Char) :
     run (escapeName n ++ c :: rest) = (run rest).map (fun ts => STok.lab n :: STok.pun c :: ts) := by
-  obtain ⟨hne, hhead, hpr, _⟩ := hn
+  obtain ⟨hne, hnl, hhead, _, hcase⟩ := (roundTrips_iff n).1 hn
   unfold escapeName
   rw [startsEndsQuote_false hhead]
   simp only [Bool.false_eq_true, if_false]
@@ -431,8 +701,7 @@ theorem run_label (n : List Char) (hn : GoodName n) (c : Char) (hc : Term c) (re
     simp only [hq, if_true]
     obtain ⟨x, n', rfl⟩ := List.exists_cons_of_ne_nil hne
     have hx : x ≠ '\'' := by simpa using hhead
-    obtain ⟨R, hR, hRs, hRl⟩ := lex_body (x :: n') ⟨[], .none⟩ ⟨by simp, trivial⟩
-      (fun y hy => printable_ne_nl (hpr y hy))
+    obtain ⟨R, hR, hRs, hRl⟩ := lex_body (x :: n') ⟨[], .none⟩ ⟨by simp, trivial⟩ hnl
     have hopen : lexRun {} ('\'' :: (doubleQuotes (x :: n') ++ '\'' :: c :: rest)) =
         Raw.sp '\'' :: lexRun ⟨[], .none⟩ (doubleQuotes (x :: n') ++ '\'' :: c :: rest) := by
       have e1 : lexStep {} '\'' = (⟨[], .sq⟩, []) := by simp [lexStep, lexFresh, isBlank, flushTxt]
@@ -446,17 +715,41 @@ theorem run_label (n : List Char) (hn : GoodName n) (c : Char) (hc : Term c) (re
   · -- unquoted
     have hq' : n.any needsQuote = false := by simpa using hq
     simp only [hq', Bool.false_eq_true, if_false]
-    have hm := munge_plain n hpr hq'
-    have hstrip : strip (munge n) = munge n := strip_noop _ fun y hy => (hm y hy).2
-    have hne' := munge_ne_nil hne
-    have hlex := lex_plain (munge n) [] c rest (fun y hy => (hm y hy).1) hc
-    simp only [List.append_nil] at hlex
-    have hflush : flushTxt (munge n).reverse = [Raw.txt (munge n)] := by
-      simp [flushTxt, hne']
+    obtain ⟨hh, hl⟩ : (∀ x, n.head? = some x → hardSpace x = false) ∧ (∀ x, n.getLast? = some x → hardSpace x = false) := by
+      rcases hcase with h | h
+      · exact absurd h hq
+      · exact h
+    obtain ⟨x, n', rfl⟩ := List.exists_cons_of_ne_nil hne
+    have hall : ∀ y ∈ munge (x :: n'), UCh y := by
+      intro y hy
+      rw [munge_eq_map] at hy
+      obtain ⟨z, hz, rfl⟩ := List.mem_map.1 hy
+      exact mungeCh_UCh (by
+        have := List.any_eq_false.1 hq' z hz
+        simpa using this) (hnl z hz)
+    obtain ⟨R, hRs, hRf, hRl⟩ := lex_unquoted (munge (x :: n')) ⟨[], .none⟩ trivial hall
+    have hm : munge (x :: n') = mungeCh x :: munge n' := by simp [munge, mungeCh]
+    obtain ⟨hsp, hbl⟩ := mungeCh_soft (hh x rfl)
+    have hstrip : strip (munge (x :: n')) = munge (x :: n') := by
+      apply strip_eq_self
+      · intro y hy
+        rw [hm] at hy
+        simp only [List.head?_cons, Option.some.injEq] at hy
+        subst hy; exact hsp
+      · intro y hy
+        rw [munge_eq_map, List.getLast?_map] at hy
+        cases hg : (x :: n').getLast? with
+        | none => rw [hg] at hy; cases hy
+        | some z =>
+          rw [hg] at hy
+          simp only [Option.map_some, Option.some.injEq] at hy
+          subst hy
+          exact (mungeCh_soft (hl z hg)).1
     simp only [run]
-    rw [show ({} : LexSt) = ⟨[], .none⟩ from rfl, hlex, hflush]
-    simp only [List.singleton_append]
-    rw [mRun_plain (munge n) (by rw [hstrip]; exact hne') c hc, hstrip, unmunge_munge n hq']
+    rw [show ({} : LexSt) = ⟨[], .none⟩ from rfl, hRl c rest hc]
+    have hflat : R.flatMap Raw.str = mungeCh x :: munge n' := by rw [hRf, ← hm]; simp [pendStr]
+    rw [mRun_unquoted R hRs (mungeCh x) (munge n') hflat hsp hbl c hc, ← hm, hstrip, unmunge_munge _ hq']
+
 
 /-! ### whole trees -/
 def sTok {K : Type} : Tok K → STok
@@ -638,7 +931,7 @@ theorem retok_name {K : Type} (rd : List Char → Option K) (sh : K → List Cha
   by_cases h : n = ""
   · simp [nameToks, h]
   · have hg : GoodName n.toList := by rcases hn with h' | h'; exact absurd h' h; exact h'
-    simp [nameToks, h, sTokW, sTok, retok, String.ofList_toList, hg.2.2.2]
+    simp [nameToks, h, sTokW, sTok, retok, String.ofList_toList, ((roundTrips_iff _).1 hg).2.2.2.1]
 
 theorem retok_len {K : Type} (rd : List Char → Option K) (sh : K → List Char) (hrd : ∀ k, rd (sh k) = some k)
     (l : Option K) (X : List STok) :
@@ -786,5 +1079,45 @@ theorem parseString_newickStrW {K : Type} (sh : K → List Char) (rd : List Char
   have := parse_newickToks true t
   rw [stripLens_true] at this
   simpa [newickToks, parseToks] using this
+
+/-! ### names: the old printable-ASCII hypothesis is a special case; one name beside a plain tip -/
+theorem roundTrips_of_printable (n : List Char) (hne : n ≠ []) (hhead : n.head? ≠ some '\'')
+    (hpr : ∀ x ∈ n, Printable x) (hp : notPunLab n = true) : roundTrips n = true := by
+  rw [roundTrips_iff]
+  refine ⟨hne, fun x hx => printable_ne_nl (hpr x hx), hhead, hp, Or.inr ⟨?_, ?_⟩⟩
+  · intro x hx
+    have hm : x ∈ n := List.mem_of_head? hx
+    by_cases hs : x = ' '
+    · subst hs; decide
+    · simp [hardSpace, printable_not_space (hpr x hm) hs]
+  · intro x hx
+    have hm : x ∈ n := List.mem_of_getLast? hx
+    by_cases hs : x = ' '
+    · subst hs; decide
+    · simp [hardSpace, printable_not_space (hpr x hm) hs]
+
+theorem goodShow_one : GoodShow (fun (_ : Unit) => ['1']) := by
+  intro k
+  refine ⟨by simp, ?_⟩
+  intro y hy
+  simp only [List.mem_cons, List.mem_nil_iff, or_false] at hy
+  subst hy
+  exact ⟨⟨by decide, by decide, by decide, by decide, by decide⟩, by decide, by decide⟩
+
+theorem nameRoundTrip_of_roundTrips (n : List Char) (h : roundTrips n = true) :
+    nameRoundTrip n = some (String.ofList n) := by
+  have hg : GoodTree (K := Unit) (.node "" none [.node (String.ofList n) none [], .node "z" none []]) := by
+    refine ⟨Or.inl rfl, ⟨Or.inr ?_, trivial⟩, ⟨Or.inr ?_, trivial⟩, trivial⟩
+    · simpa [GoodName, String.toList_ofList] using h
+    · show roundTrips "z".toList = true
+      decide
+  have hrt := parseString_newickStrW (fun (_ : Unit) => ['1']) (fun _ => some ()) goodShow_one (fun _ => rfl) _ hg
+  have heq : newickStrW (fun (_ : Unit) => ['1']) (.node "" none [.node (String.ofList n) none [], .node "z" none []])
+      = newickStr (K := Unit) (.node "" none [.node (String.ofList n) none [], .node "z" none []]) := by
+    simp [newickStrW, newickStr, printStrW, printTailW, printStr, printTail, lenStr]
+  unfold nameRoundTrip
+  rw [← heq, hrt]
+  first | rfl | simp
+
 
 end CogentModel.Phylo
